@@ -14,14 +14,6 @@
  *                                 ret != 0, and a block refused by the pool is
  *                                 back on the free list
  *   C13.end_file.no_crash         cbmc pointer checks
- *   (case append, bounded: size <= 40 with 16 byte blocks)
- *   C13.append.propagates         allocation / dequeue / submit failure in
- *                                 sqfs_block_processor_append => ret != 0
- *   C13.append.accounts_all_bytes ret == 0 => every byte went into a
- *                                 submitted full block or the current block,
- *                                 statistics advanced by exactly size
- *   C13.append.no_crash           cbmc pointer checks - includes size == 0
- *                                 with no current block
  */
 #define C14_SITE "bp_frontend"
 #include <stdlib.h>
@@ -95,9 +87,7 @@ static void *c13_block_malloc(size_t n)
 #ifndef FE_ENQUEUE
 #define FE_ENQUEUE 0
 #endif
-#ifndef APPEND_MAX
-#define APPEND_MAX 40
-#endif
+
 
 void harness(void)
 {
@@ -118,53 +108,7 @@ void harness(void)
 	if (verif_nd_bool("free_list"))
 		g_proc.free_list = bp_new_block(NULL);
 
-#if FE_ENQUEUE == 2
-	{
-		/* sqfs_block_processor_append: any size <= APPEND_MAX (incl. 0),
-		 * data or NULL (sparse), with or without a current block */
-		size_t size = verif_nd_size("append.size");
-		sqfs_u8 *data = NULL;
-		sqfs_u32 cur0 = 0;
-		sqfs_u64 in0;
-
-		VERIF_ASSUME(size <= APPEND_MAX);
-		g_proc.begin_called = verif_nd_bool("begin_called");
-		g_proc.blk_flags = verif_nd_u32("blk_flags");
-		if (verif_nd_bool("with_data")) {
-#pragma push_macro("malloc")
-#undef malloc
-			data = malloc(size);
-#pragma pop_macro("malloc")
-			VERIF_ASSUME(data != NULL);
-		}
-		if (verif_nd_bool("with_current")) {
-			cur = bp_new_block(NULL);
-			cur0 = cur->size;
-			g_proc.blk_current = cur;
-			VERIF_ASSUME(g_proc.backlog >= 1);
-		}
-		in0 = g_proc.stats.input_bytes_read = verif_nd_u64("stats.in");
-		VERIF_ASSUME(in0 < ((sqfs_u64)1 << 60));
-
-		ret = sqfs_block_processor_append(&g_proc, data, size);
-
-		VERIF_ASSERT(!g_fault || ret != 0, "C13.append.propagates");
-		if (ret == 0)
-			VERIF_ASSERT(g_proc.stats.input_bytes_read == in0 + size &&
-				     (g_proc.blk_current == NULL ||
-				      g_proc.blk_current->size < BP_BS) &&
-				     g_submitted * BP_BS +
-				     (g_proc.blk_current ? g_proc.blk_current->size : 0)
-				     == cur0 + size,
-				     "C13.append.accounts_all_bytes");
-		VERIF_COVER(ret == 0 && size == 0 && cur == NULL);
-		VERIF_COVER(ret == 0 && size == APPEND_MAX && g_submitted == 2);
-		VERIF_COVER(ret == 0 && data == NULL && size > 0);
-		VERIF_COVER(ret != 0 && g_alloc_faults == 1);
-		VERIF_COVER(ret != 0 && g_submitted == 1);
-		VERIF_COVER(ret == SQFS_ERROR_SEQUENCE);
-	}
-#elif FE_ENQUEUE
+#if FE_ENQUEUE
 	cur = bp_new_block(NULL);
 	ret = enqueue_block(&g_proc, cur);
 	VERIF_ASSERT(!g_fault || ret != 0, "C13.enqueue_block.propagates");
